@@ -373,6 +373,25 @@ Theorem C03_nested_create_altered_exit_11 : forall Hb matches C cdig ser h0 kids
   o_outcome (snd (create_folder Hb matches C cdig ser (Dir h0 kids) req no_dh false ip ifl)) = Exit 11.
 Proof. exact create_nested_altered_exit_11. Qed.
 Print Assumptions C03_nested_create_altered_exit_11.
+(* never a false one, on ANY tree the histories of which load (altered, extended, reduced, nested or not): when create -sf
+   or create exits 11, some file among those it worked on is recorded, in the history it belongs to, with a digest that is
+   not the digest of its present content *)
+Theorem C03_sf_exit_11_is_never_a_false_alarm : forall Hb matches C cdig ser t hs req sf ip ifl,
+  load C cdig t = inl hs ->
+  o_outcome (snd (create_sf Hb matches C cdig ser t req sf ip ifl)) = Exit 11 ->
+  exists sp p c f e, In sp sf /\
+    In (p, c) (sf_files matches C (set_patterns (latest_patterns (lh_gens (root_hist hs))) ip (pattern_file_lines ifl)) t sp) /\
+    find_first (lh_gens (route_to hs p)) (strip_prefix (lh_root (route_to hs p)) p) f = Some e /\ e_digest e <> digest_text Hb f c.
+Proof. exact create_sf_exit_11_genuine. Qed.
+Print Assumptions C03_sf_exit_11_is_never_a_false_alarm.
+Theorem C03_create_exit_11_is_never_a_false_alarm : forall Hb matches C cdig ser t hs req no_dh ip ifl,
+  load C cdig t = inl hs ->
+  o_outcome (snd (create_folder Hb matches C cdig ser t req no_dh false ip ifl)) = Exit 11 ->
+  exists p c f e,
+    In (p, c) (ev_files (events matches C (set_patterns (latest_patterns (lh_gens (root_hist hs))) ip (pattern_file_lines ifl)) [] t)) /\
+    find_first (lh_gens (route_to hs p)) (strip_prefix (lh_root (route_to hs p)) p) f = Some e /\ e_digest e <> digest_text Hb f c.
+Proof. exact create_exit_11_genuine. Qed.
+Print Assumptions C03_create_exit_11_is_never_a_false_alarm.
 (* every verdict of such a run on that file is a failure, and every requested format has a verdict *)
 Theorem C03_altered_file_every_verdict_fails : forall gens p dg req x,
   find_original gens p <> None -> (forall f e, find_first gens p f = Some e -> e_digest e <> dg f) ->
